@@ -1,7 +1,7 @@
 #!/usr/bin/env python3
 """Run every registered quick check against every behaviour-preserving refactoring in /verif/refactorings/* (applied to a scratch
 copy of /repo, never to /repo itself).  All checks must stay silent: anything else is a false alarm of the machinery.
-usage: selftest/refacs.py [regex] [--props C01,C02]   (default: all 20 properties)"""
+usage: selftest/refacs.py [regex] [--props=C01,C02] [--scratch=name]  (several runs in parallel need distinct scratch names)   (default: all 20 properties)"""
 import json, os, re, shutil, subprocess, sys
 VERIF = os.path.dirname(os.path.dirname(os.path.abspath(__file__)))
 SCR = os.path.join(VERIF, ".cache", "scratch")
@@ -20,6 +20,10 @@ EXTRA = {"ractor/src/actor/actor_properties.rs": ["C01", "C02", "C03", "C05", "C
          "ractor/src/actor/actor_cell.rs": ["C01", "C02", "C07", "C09", "C11", "C12"], "ractor/src/thread_local/inner.rs": ["C02", "C03", "C06", "C07", "C09", "C19"],
          "ractor/src/factory/factoryimpl.rs": ["C12", "C13", "C14", "C15"], "ractor/src/factory/worker.rs": ["C13", "C14", "C15"], "ractor/src/pg.rs": ["C06", "C08", "C11", "C20"],
          "ractor_cluster/src/node/node_session.rs": ["C17", "C18", "C19", "C20"], "ractor_cluster/src/net/session.rs": ["C19", "C20"], "ractor/src/time.rs": ["C12"], "ractor/src/rpc.rs": ["C09"]}
+SCRATCH_NAME = "r"
+for a in sys.argv[1:]:
+    if a.startswith("--scratch="):
+        SCRATCH_NAME = a.split("=", 1)[1]
 explicit_props = any(a.startswith("--props") for a in sys.argv[1:])
 def props_for(patch):
     files = set(re.findall(r"^\+\+\+ b/(\S+)", open(patch).read(), re.M))
@@ -34,7 +38,7 @@ for name in sorted(os.listdir(os.path.join(VERIF, "refactorings"))):
     sd = os.path.join(VERIF, "refactorings", name)
     if not os.path.exists(os.path.join(sd, "patch.diff")) or (rx and not rx.search(name)):
         continue
-    d = os.path.join(SCR, "r")
+    d = os.path.join(SCR, SCRATCH_NAME)
     if os.path.exists(d):
         shutil.rmtree(d)
     os.makedirs(SCR, exist_ok=True)
